@@ -9,7 +9,9 @@ EXTENDS System
 \* q6  $[?@.a == ]                      syntactically invalid
 \* q7  $..s                             a descendant segment whose first match lies below the root (find_one abandons
 \*                                      the traversal with siblings still pending)
-MCQText == [q1 |-> <<36,91,63,64,46,97,32,61,61,32,36,46,120,93>>,
+\* q8  $[?f(@.a) == 1]                  well-typed only where f returns a ValueType (the subclass's own f)
+MCQText == [q8 |-> <<36,91,63,102,40,64,46,97,41,32,61,61,32,49,93>>,
+            q1 |-> <<36,91,63,64,46,97,32,61,61,32,36,46,120,93>>,
             q2 |-> <<36,91,63,102,40,64,46,97,41,93>>,
             q3 |-> <<36,46,46,91,63,64,91,63,64,32,61,61,32,36,46,120,93,93>>,
             q4 |-> <<36,91,63,109,97,116,99,104,40,64,46,115,44,32,39,97,46,39,41,32,124,124,32,115,101,97,114,99,104,40,64,46,115,44,32,39,97,46,39,41,93>>,
